@@ -138,7 +138,7 @@ def parseRecs (f : L) : Option (List (List TEntry)) :=
 def parseArg (s : L) : Option Arg :=
   match s with
   | 'i' :: r => (intOf r).map .int
-  | 'u' :: r => (natOf r).map fun n => .int (toInt64 n)
+  | 'u' :: r => (natOf r).map .uint
   | 'f' :: r => match splitOnC ':' r with
     | [_, t] => (unhx t).map .float
     | _ => none
@@ -197,6 +197,7 @@ partial def Tree.tokens : Tree → List Tok
     | .str s => [s]
     | .float t => [t]
     | .int i => [showInt i]
+    | .uint n => [showNat n]
     | _ => []
   | .and l => (l.map Tree.tokens).flatten
   | .or l => (l.map Tree.tokens).flatten
